@@ -37,7 +37,21 @@ pub(crate) fn apply_file_system_operations(
 ) -> LocationFreeDiagnosticResult<usize> {
     let mut count = 0;
 
+    #[cfg(isographlabs_isograph_verif)]
+    let mut verif_op_index = 0usize;
     for operation in operations {
+        #[cfg(isographlabs_isograph_verif)]
+        {
+            let i = verif_op_index;
+            verif_op_index += 1;
+            verif_fs::before_fs_op(i, operation).map_err(|e| {
+                unable_to_do_something_at_path_diagnostic(
+                    &PathBuf::new(),
+                    &e.to_string(),
+                    "proceed (verif fault injection)",
+                )
+            })?;
+        }
         match operation {
             FileSystemOperation::DeleteDirectory(path) => {
                 if path.exists() {
@@ -95,4 +109,51 @@ pub fn unable_to_do_something_at_path_diagnostic(
         \nReason: {message}"
     )
     .into()
+}
+
+/// Verification hooks (model-based verification harness in /verif, engine `artifactdir`).
+/// Compiled only with `--cfg isographlabs_isograph_verif`.
+#[cfg(isographlabs_isograph_verif)]
+pub mod verif_fs {
+    use std::{cell::RefCell, io, path::Path};
+
+    use artifact_content::FileSystemState;
+    use common_lang_types::{
+        ArtifactPathAndContent, FileSystemOperation, LocationFreeDiagnosticResult,
+    };
+
+    pub type BeforeFsOp = Box<dyn FnMut(usize, &FileSystemOperation) -> io::Result<()>>;
+
+    thread_local! {
+        static BEFORE_FS_OP: RefCell<Option<BeforeFsOp>> = const { RefCell::new(None) };
+    }
+
+    /// Install (or clear, with `None`) the fault-injection callback of the current thread.
+    pub fn set_before_fs_op(callback: Option<BeforeFsOp>) {
+        BEFORE_FS_OP.with(|c| *c.borrow_mut() = callback);
+    }
+
+    /// Called at the top of the loop body of `apply_file_system_operations`; a no-op unless
+    /// a callback is installed.
+    pub fn before_fs_op(i: usize, op: &FileSystemOperation) -> io::Result<()> {
+        BEFORE_FS_OP.with(|c| match c.borrow_mut().as_mut() {
+            Some(callback) => callback(i, op),
+            None => Ok(()),
+        })
+    }
+
+    pub fn get_file_system_operations(
+        paths_and_contents: &[ArtifactPathAndContent],
+        artifact_directory: &Path,
+        file_system_state: &mut Option<FileSystemState>,
+    ) -> Vec<FileSystemOperation> {
+        super::get_file_system_operations(paths_and_contents, artifact_directory, file_system_state)
+    }
+
+    pub fn apply_file_system_operations(
+        operations: &[FileSystemOperation],
+        artifacts: &[ArtifactPathAndContent],
+    ) -> LocationFreeDiagnosticResult<usize> {
+        super::apply_file_system_operations(operations, artifacts)
+    }
 }
